@@ -228,6 +228,20 @@ def stepLine (line : String) : String :=
       let out := RK.splitStep ops (polyRhs n terms) mm t y h (T.drift.map (tabRat T.K)) (T.kick.map (tabRat T.K))
       s!"{showRats out.1} {showRat out.2}"
     | _, _, _, _, _, _, _ => bad
+  -- jacops <rhsHasJac 0/1> <ops j<t>,h<tag>,u,o>  : Jacobian dispatch machine, answers in order
+  | ["jacops", r, ops] =>
+    let parse (t : String) : Option Jac.Op :=
+      if t == "u" then some .unhook else if t == "o" then some .setOrder
+      else if t.startsWith "j" then (t.drop 1).toString.toNat?.map .jac
+      else if t.startsWith "h" then (t.drop 1).toString.toNat?.map .hook
+      else none
+    match (ops.splitOn ",").mapM parse with
+    | some l =>
+      let res := Jac.run { rhsHasJac := r == "1" } l
+      let sh (a : Jac.Answer) : String := match a with
+        | .user g => s!"user{g}" | .rhsAttr => "attr" | .fd t raw => s!"fd{t}{if raw then "raw" else ""}" | .crash => "crash"
+      s!"{showList sh res.2} {res.1.njev}"
+    | none => bad
   -- lookup idx <n> <i> | near <q> <ts> | slice <start|-> <stop|-> <ts> | iter <n>
   | ["lookup", "idx", n, i] =>
     match n.toNat?, parseInt? i with
